@@ -212,6 +212,9 @@ type aggregateHandler struct {
 }
 
 func NewAggregateHandler(c AggregateHandlerConfig, d HandlerDiagnostic) (alert.Handler, error) {
+	if c.Interval <= 0 {
+		return nil, errors.New("aggregate handler requires a positive interval")
+	}
 	// Parse and validate message template
 	tmpl, err := text.New("message").Parse(c.Message)
 	if err != nil {
